@@ -8,6 +8,7 @@ package main
 import (
 	"bytes"
 	"fmt"
+	"io"
 	"math"
 	"strings"
 
@@ -71,6 +72,80 @@ func genTx(r *vh.RNG, tokens bool) *wire.MsgTx {
 	return tx
 }
 
+func varIntBytes(v uint64) []byte {
+	var w bytes.Buffer
+	vh.Must(wire.WriteVarInt(&w, 0, v))
+	return w.Bytes()
+}
+
+var validBitfields = []byte{0x10, 0x20, 0x21, 0x22, 0x30, 0x31, 0x32, 0x60, 0x61, 0x62, 0x70, 0x71, 0x72}
+
+// tokenPrefixScript builds an output whose script bytes start with wire.PREFIX_BYTE (0xef), the family the
+// ordinary generator avoids.  Kinds:
+//
+//	0 ef + fewer than 33 bytes              (wire: not token data, whole script kept)
+//	1 ef + category + invalid bitfield      (kept whole)
+//	2 ef + category + well-formed token     (split into TokenData + script; re-serialises to the same bytes)
+//	3 ef + category + malformed token body  (commitment length 0 / 41 / non-canonical varint, amount 0 / non-canonical / missing: kept whole)
+//	4 ef + ZERO category + well-formed body (split, but a zero category is "no token data" for the writer:
+//	                                         wire re-serialises WITHOUT the prefix - not canonical)
+//	5 TokenData given as a struct, invalid  (bitfield 0 / reserved bit / commitment of 41 bytes / amount 0: written, then read back as a plain script)
+//	6 TokenData struct with a zero category (never written)
+func tokenPrefixScript(r *vh.RNG, kind int) *wire.TxOut {
+	tail := r.Bytes(r.Intn(4))
+	cat := r.Bytes(32)
+	cat[0] |= 1
+	body := func(bf byte) []byte {
+		var b []byte
+		if bf&0x40 != 0 {
+			c := r.Bytes(vh.Pick(r, []int{1, 2, 39, 40}))
+			b = append(b, varIntBytes(uint64(len(c)))...)
+			b = append(b, c...)
+		}
+		if bf&0x10 != 0 {
+			b = append(b, varIntBytes(vh.Pick(r, []uint64{1, 5, 252, 253, 65535, 65536, 1 << 32, math.MaxInt64}))...)
+		}
+		return b
+	}
+	value := int64(r.Intn(1000))
+	switch kind {
+	case 0:
+		return wire.NewTxOut(value, append([]byte{0xef}, r.Bytes(r.Intn(33))...), wire.TokenData{})
+	case 1:
+		bf := vh.Pick(r, []byte{0x00, 0x80, 0x90, 0x13, 0x40, 0x50, 0x11, 0x23, 0x0f, 0xff})
+		return wire.NewTxOut(value, append(append(append([]byte{0xef}, cat...), bf), tail...), wire.TokenData{})
+	case 2:
+		bf := vh.Pick(r, validBitfields)
+		return wire.NewTxOut(value, append(append(append(append([]byte{0xef}, cat...), bf), body(bf)...), tail...), wire.TokenData{})
+	case 3:
+		bad := [][]byte{
+			append([]byte{0x60, 0x00}, tail...),                          // commitment length 0
+			append(append([]byte{0x60, 41}, r.Bytes(41)...), tail...),    // commitment length 41
+			append(append([]byte{0x60, 0xfd, 0x02, 0x00}, 1, 2), tail...), // non-canonical varint
+			append([]byte{0x10, 0x00}, tail...),                          // amount 0
+			append([]byte{0x10, 0xfd, 0x05, 0x00}, tail...),              // non-canonical amount
+			{0x10},                                                       // amount missing
+			{0x60, 0x05, 1, 2},                                           // commitment truncated
+			append([]byte{0x10, 0xff, 0xff, 0xff, 0xff, 0xff, 0xff, 0xff, 0xff, 0xff}, tail...), // amount above the maximum
+		}
+		return wire.NewTxOut(value, append(append([]byte{0xef}, cat...), vh.Pick(r, bad)...), wire.TokenData{})
+	case 4:
+		bf := vh.Pick(r, validBitfields)
+		return wire.NewTxOut(value, append(append(append(append([]byte{0xef}, make([]byte, 32)...), bf), body(bf)...), tail...), wire.TokenData{})
+	case 5:
+		td := wire.TokenData{BitField: vh.Pick(r, []byte{0x00, 0x80, 0x13, 0x60, 0x10, 0x10})}
+		copy(td.CategoryID[:], cat)
+		switch td.BitField {
+		case 0x60:
+			td.Commitment = r.Bytes(vh.Pick(r, []int{0, 41}))
+		case 0x10:
+			td.Amount = vh.Pick(r, []uint64{0, math.MaxInt64 + 1})
+		}
+		return wire.NewTxOut(value, append([]byte{0x76}, tail...), td)
+	}
+	return wire.NewTxOut(value, append([]byte{0x76}, tail...), wire.TokenData{BitField: 0x10, Amount: uint64(1 + r.Intn(9))})
+}
+
 func genBlock(r *vh.RNG, ntx int, tokens bool) *wire.MsgBlock {
 	var prev, merkle chainhash.Hash
 	copy(prev[:], r.Bytes(32))
@@ -94,6 +169,27 @@ func serTx(t *wire.MsgTx) []byte {
 	vh.Must(t.Serialize(&w))
 	return w.Bytes()
 }
+// wireCanonical: package wire accepts `in` as a block, and the bytes it consumed are exactly the
+// serialisation of the message it returned.  Calls wire only.
+func wireCanonical(in []byte) bool {
+	var m wire.MsgBlock
+	rd := bytes.NewReader(append([]byte(nil), in...))
+	if err := m.Deserialize(rd); err != nil {
+		return true // rejected: nothing is cached
+	}
+	return bytes.Equal(serBlock(&m), in[:len(in)-rd.Len()])
+}
+
+// wireConsumed: the prefix of `in` that wire.MsgBlock.Deserialize reads (all of it if rejected).
+func wireConsumed(in []byte) []byte {
+	var m wire.MsgBlock
+	rd := bytes.NewReader(append([]byte(nil), in...))
+	if err := m.Deserialize(rd); err != nil {
+		return in
+	}
+	return in[:len(in)-rd.Len()]
+}
+
 func serHeader(m *wire.MsgBlock) []byte {
 	var w bytes.Buffer
 	vh.Must(m.Header.Serialize(&w))
@@ -298,7 +394,13 @@ func runHistory1(h history, corr bool) {
 		ctorCoq = "CBytes " + vh.CoqBytes(h.Input)
 	case "reader":
 		rd := bytes.NewReader(h.Input)
-		b, err = bchutil.NewBlockFromReader(rd)
+		if len(h.Input)%2 == 1 {
+			// hide the concrete reader type (a plain io.Reader: no Len, no ReadByte, no Seek)
+			b, err = bchutil.NewBlockFromReader(struct{ io.Reader }{rd})
+			rep.Histogram["reader_opaque"]++
+		} else {
+			b, err = bchutil.NewBlockFromReader(rd)
+		}
 		unread = rd.Len()
 		ctorCoq = fmt.Sprintf("CReader %s %d%%nat", vh.CoqBytes(h.Input), unread)
 	case "blockandbytes":
@@ -332,6 +434,23 @@ func runHistory1(h history, corr bool) {
 	n := len(m.Transactions)
 	fresh := serBlock(m)
 	trusted := h.Ctor != "blockandbytes" || len(h.Input) == 0 || bytes.Equal(h.Input, fresh) // precondition of NewBlockFromBlockAndBytes
+	// The dependency's side of the contract, decided by calling package wire alone (never bchutil):
+	// is what wire.Deserialize accepted the canonical serialisation of what it returned (hypothesis
+	// wire_canonical of the theorems)?  Where it is not, the clauses that compare the bytes cached by
+	// NewBlockFromBytes with a fresh serialisation are reported under C16:wire-noncanonical:<clause>.
+	canonIn := true
+	if h.Ctor == "bytes" || h.Ctor == "reader" {
+		canonIn = wireCanonical(h.Input)
+		if !canonIn {
+			rep.Histogram["input_wire_noncanonical_"+h.Ctor]++
+		}
+	}
+	clause := func(key string) string {
+		if h.Ctor == "bytes" && !canonIn {
+			return "C16:wire-noncanonical:" + key[len("C16:"):]
+		}
+		return key
+	}
 	if h.Ctor == "new" || h.Ctor == "blockandbytes" {
 		if m != h.Msg {
 			rep.Violate("C16:ctor:msg", "MsgBlock() is not the message the block was made from", h.replay(nil))
@@ -343,6 +462,10 @@ func runHistory1(h history, corr bool) {
 	lt = append(lt, coqTxLocEntry(fresh))
 	if !trusted {
 		lt = append(lt, coqTxLocEntry(h.Input))
+	}
+	if h.Ctor == "bytes" && !canonIn {
+		// the bytes NewBlockFromBytes keeps are the consumed input, which here is not `fresh`
+		lt = append(lt, coqTxLocEntry(wireConsumed(h.Input)))
 	}
 	rep.Count("history_"+h.Ctor, key, len(h.Ops) >= 2)
 	if !trusted {
@@ -493,7 +616,7 @@ func runHistory1(h history, corr bool) {
 				return
 			}
 			if trusted && !bytes.Equal(got, fresh) {
-				viol(k, "C16:bytes:fresh", "Bytes() differs from a fresh MsgBlock().Serialize()", map[string]interface{}{"Bytes()": vh.Hex(got), "len(Bytes())": len(got), "fresh": vh.Hex(fresh), "len(fresh)": len(fresh)})
+				viol(k, clause("C16:bytes:fresh"), "Bytes() differs from a fresh MsgBlock().Serialize()", map[string]interface{}{"Bytes()": vh.Hex(got), "len(Bytes())": len(got), "fresh": vh.Hex(fresh), "len(fresh)": len(fresh)})
 			}
 			if len(got) > 0 {
 				if bytesPtr != nil && bytesPtr != &got[0] {
@@ -516,12 +639,18 @@ func runHistory1(h history, corr bool) {
 			raw, _ := b.Bytes()
 			if trusted {
 				ok := len(locs) == n
+				// exactly: transaction i sits where the header, the count and transactions 0..i-1 end
+				// (a slice with the right content somewhere else - identical transactions - is not enough),
+				// and the last one ends the block
+				next := 80 + wire.VarIntSerializeSize(uint64(n))
 				for i := 0; ok && i < n; i++ {
 					s, l := locs[i].TxStart, locs[i].TxLen
-					ok = s >= 0 && l >= 0 && s+l <= len(raw) && bytes.Equal(raw[s:s+l], serTx(m.Transactions[i]))
+					ok = s == next && l >= 0 && s+l <= len(raw) && bytes.Equal(raw[s:s+l], serTx(m.Transactions[i]))
+					next = s + l
 				}
+				ok = ok && next == len(raw)
 				if !ok {
-					viol(k, "C16:txloc:delimits", "TxLoc() does not delimit each transaction's serialisation inside Bytes()", map[string]interface{}{"locs": fmt.Sprint(locs)})
+					viol(k, clause("C16:txloc:delimits"), "TxLoc() does not delimit each transaction's serialisation inside Bytes()", map[string]interface{}{"locs": fmt.Sprint(locs)})
 				}
 			}
 			outs = append(outs, "XLocs "+coqLocs(locs))
@@ -558,7 +687,11 @@ func runHistory1(h history, corr bool) {
 	// re-parse equivalence
 	if trusted {
 		raw, e := b.Bytes()
-		if e == nil {
+		if e == nil && !wireCanonical(raw) {
+			// wire.Deserialize(raw) re-serialises to something else (hypothesis wire_roundtrip fails on
+			// this message: a property of the dependency, established without calling bchutil)
+			rep.Histogram["reparse_skipped_wire_does_not_roundtrip"]++
+		} else if e == nil {
 			b2, e2 := bchutil.NewBlockFromBytes(append([]byte(nil), raw...))
 			ok := e2 == nil && b2 != nil
 			if ok {
@@ -635,7 +768,11 @@ func runTxHistory(ctor string, msg *wire.MsgTx, input []byte, trailing int, ops 
 			tt = append(tt, entry(input))
 		case "reader":
 			rd := bytes.NewReader(input)
-			t, err = bchutil.NewTxFromReader(rd)
+			if len(input)%2 == 1 {
+				t, err = bchutil.NewTxFromReader(struct{ io.Reader }{rd})
+			} else {
+				t, err = bchutil.NewTxFromReader(rd)
+			}
 			unread = rd.Len()
 			ctorCoq = fmt.Sprintf("TFromReader %s %d%%nat", vh.CoqBytes(input), unread)
 			tt = append(tt, entry(input))
@@ -658,7 +795,18 @@ func runTxHistory(ctor string, msg *wire.MsgTx, input []byte, trailing int, ops 
 		if ctor == "new" && m != msg {
 			rep.Violate("C16:txw:msgtx", "NewTx(m).MsgTx() is not m", replay)
 		}
-		if !bytes.Equal(serTx(m), serTx(msg)) {
+		want := serTx(msg)
+		if ctor != "new" {
+			// what package wire itself makes of the bytes (it is not canonical for every script, see tokenPrefixScript)
+			var wm wire.MsgTx
+			if wm.Deserialize(bytes.NewReader(append([]byte(nil), input...))) == nil {
+				if !bytes.Equal(serTx(&wm), want) {
+					rep.Histogram["txwrapper_input_wire_noncanonical"]++
+				}
+				want = serTx(&wm)
+			}
+		}
+		if !bytes.Equal(serTx(m), want) {
 			rep.Violate("C16:txw:content", "the wrapped transaction differs from the one serialised", replay)
 		}
 		index := -1
@@ -819,7 +967,7 @@ func main() {
 	r = rng.Fork("varint")
 	counts := []int{252, 253, 254, 300}
 	if cfg.Thorough() || cfg.Search {
-		counts = append(counts, 65535, 65536)
+		counts = append(counts, 65535, 65536, 65537) // 65537: the last index (65536) no longer fits 16 bits
 	}
 	for _, n := range counts {
 		m := genBlock(r, 0, false)
@@ -843,6 +991,98 @@ func main() {
 				h.Ops = append(h.Ops, opSpec{"txs", 0}, opSpec{"tx", -1}, opSpec{"txloc", 0})
 			}
 			runHistory(h, false)
+		}
+	}
+
+	// --- the count and length varints INSIDE transactions: scripts of 252 | 253 | 254 .. 65535 | 65536 bytes,
+	// 253 inputs / outputs (the ordinary generator stays below 6 bytes and 3 entries)
+	r = rng.Fork("bigfields")
+	lens := []int{252, 253, 254, 255, 256, 1000}
+	if cfg.Thorough() || cfg.Search {
+		lens = append(lens, 65535, 65536)
+	}
+	for _, L := range lens {
+		for variant := 0; variant < 4; variant++ {
+			m := genBlock(r, 1+r.Intn(2), false)
+			t := wire.NewMsgTx(1)
+			var hsh chainhash.Hash
+			copy(hsh[:], r.Bytes(32))
+			nin, nout := 1, 1
+			sigLen, pkLen := r.Intn(3), r.Intn(3)
+			switch variant {
+			case 0:
+				sigLen = L
+			case 1:
+				pkLen = L
+			case 2:
+				if L > 1000 {
+					continue
+				}
+				nin = L
+			case 3:
+				if L > 1000 {
+					continue
+				}
+				nout = L
+			}
+			for i := 0; i < nin; i++ {
+				t.AddTxIn(wire.NewTxIn(wire.NewOutPoint(&hsh, uint32(i)), r.Bytes(sigLen)))
+			}
+			for i := 0; i < nout; i++ {
+				pk := r.Bytes(pkLen)
+				if len(pk) > 0 && pk[0] == wire.PREFIX_BYTE {
+					pk[0] = 0x76
+				}
+				t.AddTxOut(wire.NewTxOut(int64(i), pk, wire.TokenData{}))
+			}
+			pos := r.Intn(len(m.Transactions) + 1)
+			m.Transactions = append(m.Transactions[:pos], append([]*wire.MsgTx{t}, m.Transactions[pos:]...)...)
+			n := len(m.Transactions)
+			rep.Histogram[fmt.Sprintf("bigfield_%s", []string{"sigscript", "pkscript", "inputs", "outputs"}[variant])]++
+			for _, ctor := range ctors {
+				h := mkHistory(r, ctor, m, 0)
+				h.Ops = []opSpec{{"txloc", 0}, {"txhash", int64(pos)}, {"bytes", 0}, {"txs", 0}, {"txloc", 0}, {"tx", int64(n)}, {"hash", 0}}
+				runHistory(h, false)
+			}
+			ser := serTx(t)
+			runTxHistory("bytes", t, append(append([]byte(nil), ser...), 1, 2), 2, []topSpec{{"hash", 0}, {"index", 0}, {"hash", 0}}, false)
+		}
+	}
+
+	// --- output scripts that start with the CashToken prefix byte (see tokenPrefixScript)
+	r = rng.Fork("tokenprefix")
+	np := cfg.Scale(210, 4000)
+	if cfg.Search {
+		np = 8000
+	}
+	ncorrP := 0
+	for i := 0; i < np; i++ {
+		kind := i % 7
+		n := 1 + r.Intn(3)
+		m := genBlock(r, n, i%2 == 0)
+		pos := r.Intn(n)
+		m.Transactions[pos].AddTxOut(tokenPrefixScript(r, kind))
+		if r.Intn(4) == 0 {
+			m.Transactions[r.Intn(n)].AddTxOut(tokenPrefixScript(r, r.Intn(7)))
+		}
+		rep.Histogram[fmt.Sprintf("tokenprefix_kind_%d", kind)]++
+		ctor := ctors[(i/7)%4]
+		h := mkHistory(r, ctor, m, 2+r.Intn(8))
+		h.Ops = append(h.Ops, opSpec{"bytes", 0}, opSpec{"txloc", 0}, opSpec{"txhash", int64(pos)})
+		corr := !cfg.Search && ncorrP < 56 && len(serBlock(m)) < 700
+		if corr {
+			ncorrP++
+		}
+		runHistory(h, corr)
+		if i%5 == 0 {
+			t := m.Transactions[pos]
+			ser := serTx(t)
+			tc := []string{"new", "bytes", "reader"}[(i/5)%3]
+			var in []byte
+			if tc != "new" {
+				in = append([]byte(nil), ser...)
+			}
+			runTxHistory(tc, t, in, 0, []topSpec{{"hash", 0}, {"msgtx", 0}, {"index", 0}, {"hash", 0}}, !cfg.Search && i < 70)
 		}
 	}
 
